@@ -97,7 +97,7 @@ where
     }
 
     fn oob_insert(&self, world: &World, c: (u32, u32)) -> bool {
-        let e = world.entities().entity(1 << 24);
+        let e = world.entities().entity((1 << 24) + 5);
         let v = T::new(c.0, c.1);
         let r = crate::util::catch(|| {
             let mut st = world.write_storage::<T>();
